@@ -51,7 +51,7 @@ func natLive(name string, legacy bool, mode vmode) string {
 	}
 	path := filepath.Join(dir, "config.json")
 	os.WriteFile(path, []byte(substitute(w.emit(-1, false), dir, env.echoPort(), env.dnsPort(), ports)), 0o644)
-	logger, _ := newLogger()
+	logger, _ := newLogger("debug", "console")
 	_, m, err := loadConfig(path, logger)
 	if err != nil {
 		return fmt.Sprintf("SIG=C18/valid-config-refused %s: %v", name, err)
